@@ -183,8 +183,8 @@ theorem step_invL_simple {s s' : State} {dead : List Inst} {x : Inst} {a : Act} 
         obtain ⟨rfl, rfl⟩ := act_on_last inv hi hc.1
         injection hstep with hstep; subst hstep
         have hfresh : t.uri ∉ s.used := by simpa using hc.2
-        refine ⟨{ xi with current := t :: xi.current, created := t.uri :: xi.created }, ?_⟩
-        have := invL_tables (x' := { xi with current := t :: xi.current, created := t.uri :: xi.created })
+        refine ⟨{ xi with current := t :: xi.current, created := t.uri :: xi.created, made := t.uri :: xi.made }, ?_⟩
+        have := invL_tables (x' := { xi with current := t :: xi.current, created := t.uri :: xi.created, made := t.uri :: xi.made })
           (F := .sst t.uri :: s.files) (U := t.uri :: s.used) inv rfl rfl rfl rfl rfl inv.norel (fun h => h)
           (fun f hf => List.mem_cons_of_mem _ hf) (fun u hu => List.mem_cons_of_mem _ hu)
           (by
@@ -210,9 +210,9 @@ theorem step_invL_simple {s s' : State} {dead : List Inst} {x : Inst} {a : Act} 
         injection hstep with hstep; subst hstep
         have hfresh := allFresh_not_mem hc.2.1
         refine ⟨{ xi with current := xi.current.filter (fun t => !rm.contains t.uri) ++ add,
-                          created := uris add ++ xi.created }, ?_⟩
+                          created := uris add ++ xi.created, made := uris add ++ xi.made }, ?_⟩
         have := invL_tables (x' := { xi with current := xi.current.filter (fun t => !rm.contains t.uri) ++ add,
-                                              created := uris add ++ xi.created })
+                                              created := uris add ++ xi.created, made := uris add ++ xi.made })
           (F := (uris add).map File.sst ++ s.files) (U := uris add ++ s.used) inv rfl rfl rfl rfl rfl inv.norel (fun h => h)
           (fun f hf => List.mem_append_right _ hf) (fun u hu => List.mem_append_right _ hu)
           (by
